@@ -1,6 +1,7 @@
 use crate::runner::Prop;
 
 pub mod c01;
+pub mod c02;
 pub mod c03;
 pub mod c04;
 pub mod c07;
@@ -41,6 +42,7 @@ pub fn lookup(id: &str) -> Option<Box<dyn Prop>> {
         "C18" => Some(Box::new(c18::C18)),
         "C19" => Some(Box::new(c19::C19)),
         "C20" => Some(Box::new(c20::C20)),
+        "C02" => Some(Box::new(c02::C02)),
         _ => None,
     }
 }
